@@ -4,7 +4,12 @@ use std::fs::{create_dir, hard_link, remove_dir, remove_dir_all, remove_file, re
 use std::io::ErrorKind;
 use std::ops::Bound;
 use std::path::{Path, PathBuf};
+#[cfg(not(rescrv_blue_verif_shuttle))]
 use std::sync::{Arc, Condvar, Mutex, RwLock};
+#[cfg(rescrv_blue_verif_shuttle)]
+use std::sync::Arc;
+#[cfg(rescrv_blue_verif_shuttle)]
+use shuttle::sync::{Condvar, Mutex, RwLock};
 
 use biometrics::Counter;
 use indicio::{INFO, clue};
@@ -1090,6 +1095,8 @@ pub struct LsmTree {
     compact: Condvar,
     references: ReferenceCounter<Setsum>,
     sst_cache: Arc<LeastRecentlyUsedCache<Setsum, CachedSst>>,
+    #[cfg(rescrv_blue_verif)]
+    verif: crate::verif::Control,
 }
 
 impl LsmTree {
@@ -1146,6 +1153,8 @@ impl LsmTree {
             compact,
             references,
             sst_cache,
+            #[cfg(rescrv_blue_verif)]
+            verif: crate::verif::Control::default(),
         };
         db.cleanup_orphans()?;
         Ok(db)
@@ -1199,6 +1208,13 @@ impl LsmTree {
                 }
             }
         }
+        #[cfg(rescrv_blue_verif)]
+        let ssts_to_remove = {
+            // Make the order of the renames a function of the contents, not of the hasher.
+            let mut sorted = ssts_to_remove.into_iter().collect::<Vec<_>>();
+            sorted.sort_by_key(|s| s.hexdigest());
+            sorted
+        };
         for setsum in ssts_to_remove.into_iter() {
             let sst_path = SST_FILE(&self.root, setsum);
             let trash_path = TRASH_SST(&self.root, setsum);
@@ -1247,6 +1263,10 @@ impl LsmTree {
     // TODO(rescrv):  Make this pub(crate).
     pub fn compaction_thread(&self) -> Result<(), SError> {
         loop {
+            #[cfg(rescrv_blue_verif)]
+            if self.verif.should_return_at_top() {
+                return Ok(());
+            }
             let compaction = {
                 let mut mutex = self.compaction.lock().unwrap();
                 'inner: loop {
@@ -1256,6 +1276,10 @@ impl LsmTree {
                         break 'inner compaction;
                     } else {
                         COMPACTION_THREAD_NO_COMPACTION.click();
+                        #[cfg(rescrv_blue_verif)]
+                        if self.verif.should_return_instead_of_wait() {
+                            return Ok(());
+                        }
                         mutex = self.compact.wait(mutex).unwrap();
                     }
                 }
@@ -1266,6 +1290,8 @@ impl LsmTree {
                 let _ = version.version.release_compaction(compaction);
                 return Err(err);
             }
+            #[cfg(rescrv_blue_verif)]
+            self.verif.note_work_done();
         }
     }
 
@@ -1587,9 +1613,13 @@ impl LsmTree {
     }
 
     fn explicit_unref(&self, version: &Arc<Version>) {
+        #[cfg(rescrv_blue_verif)]
+        crate::verif::yield_point("explicit_unref:before-count");
         if Arc::strong_count(version) != 1 {
             return;
         }
+        #[cfg(rescrv_blue_verif)]
+        crate::verif::yield_point("explicit_unref:after-count");
         for setsum in version.setsums() {
             if self.references.dec(setsum) {
                 let sst_path = SST_FILE(&self.root, setsum);
@@ -1621,6 +1651,61 @@ impl LsmTree {
         let cursor = PruningCursor::new(version_scan, u64::MAX)?;
         let cursor = BoundsCursor::new(cursor, start_bound, end_bound)?;
         Ok(cursor)
+    }
+}
+
+/////////////////////////////////////////// verification ///////////////////////////////////////////
+
+#[cfg(rescrv_blue_verif)]
+impl LsmTree {
+    /// The control block consulted by the daemon loops of this tree.
+    pub fn verif(&self) -> &crate::verif::Control {
+        &self.verif
+    }
+
+    /// True iff an ingest issued now would wait for compaction to relieve level 0.
+    pub fn verif_would_stall_ingest(&self) -> bool {
+        self.take_snapshot().version.should_stall_ingest()
+    }
+
+    /// Number of compactions currently chosen and not yet applied or released.
+    pub fn verif_ongoing_compactions(&self) -> usize {
+        self.take_snapshot().version.ongoing.lock().unwrap().len()
+    }
+
+    /// Per-level (setsum, first_key, last_key, smallest_timestamp, biggest_timestamp, file_size).
+    #[allow(clippy::type_complexity)]
+    pub fn verif_levels(&self) -> Vec<Vec<(Setsum, Vec<u8>, Vec<u8>, u64, u64, u64)>> {
+        let snapshot = self.take_snapshot();
+        snapshot
+            .version
+            .levels
+            .iter()
+            .map(|level| {
+                level
+                    .ssts
+                    .iter()
+                    .map(|md| {
+                        (
+                            Setsum::from_digest(md.setsum),
+                            md.first_key.clone(),
+                            md.last_key.clone(),
+                            md.smallest_timestamp,
+                            md.biggest_timestamp,
+                            md.file_size,
+                        )
+                    })
+                    .collect()
+            })
+            .collect()
+    }
+
+    /// Ask the compaction loops to return; wakes every loop and every stalled ingest.
+    pub fn verif_request_stop(&self) {
+        self.verif.set_stop(true);
+        let _mutex = self.compaction.lock().unwrap();
+        self.compact.notify_all();
+        self.stall.notify_all();
     }
 }
 
